@@ -8,7 +8,7 @@ PID = "C04"
 ENV = {"BASES_DATA": os.path.join(tlc.SPEC_DIR, "data", "bases.json"),
        "NORM_DATA": os.path.join(tlc.SPEC_DIR, "data", "normdata.json"),
        "URL_DATA": os.path.join(tlc.SPEC_DIR, "data", "urlgen.json")}
-NBASES = 29
+NBASES = 30
 ALLB = "{" + ",".join(str(i) for i in range(1, NBASES + 1)) + "}"
 NAMES = ["norm-invariant", "norm-invariant-quoted", "norm-invariant-platform-aware"]
 
